@@ -1,53 +1,40 @@
 """C02 - message conservation and legal state transitions."""
-import os
-
-import vf
 from checks import queuefam as q
 
-RULE = ("MC: QueueMC exhaustively (bounded) with the C02 action properties; GEN: one schedule per edge of the bounded abstract "
-        "graph (self-loops of a state chained, prefixes dropped) and seeded random driver schedules, each executed on the real "
-        "memory and SQLite stores; every event (arguments, result, full message table, volatile state) validated by TLC "
-        "against Queue.tla (QueueTrace). distinct_nontrivial = validated events.")
+RULE = ("MC: QueueMC exhaustively (bounded) with the C02 action properties Conservation / FailureIsNoop; GEN: one schedule per edge "
+        "of the bounded abstract graph (self-loops of a state chained, prefixes dropped) and seeded random driver schedules over all "
+        "Store operations, each executed on the real memory and SQLite stores; every event (arguments, result, full message table, "
+        "volatile state) validated by TLC against Queue.tla (QueueTrace: outcome check + StepLegal + StoreOK per step). "
+        "distinct_nontrivial = validated events.")
+PROPS = ["Conservation", "FailureIsNoop", "LeaseExclusive", "LeaseFence", "DropRule", "OperatorExact"]
+FAM_ALL = ("lease", "leasebatch", "deqvar", "operator", "filter", "admission", "read")
 
 
 def run(ctx):
-    vf.build_hkv()
-    fam_all = ("lease", "operator", "admission", "read")
     drop = q.spec_cfg(maxDepth=2, drop="drop_oldest")
     ret = q.spec_cfg(maxDepth=2, drop="reject", retMaxAge=20, pruneInt=10, delivMaxAge=20, dlqMaxAge=20, dlqMaxDepth=1)
     if ctx.quick:
-        q.run_mc(ctx, "drop-lease", drop, family=("lease",), horizon=20, maxep=2, maxins=2)
-        q.run_mc(ctx, "ret-all", ret, family=fam_all, horizon=20, maxep=1, maxins=2, ttls=(10,))
-        gens = [("drop", drop, dict(family=fam_all, horizon=10, maxep=1, maxins=2, pick="insertion", ttls=(10,)))]
-        ndrv, nops, sample = 160, 60, 4
+        plan = {
+            "mc": [("drop_lease", drop, PROPS, dict(family=("lease", "leasebatch", "deqvar"), horizon=20, maxep=2, maxins=2)),
+                   ("ret_all", ret, PROPS, dict(family=FAM_ALL, horizon=20, maxep=1, maxins=2, ttls=(10,)))],
+            "gen": [("drop", drop, dict(family=("lease", "leasebatch", "deqvar", "admission", "read"), horizon=10, maxep=1, maxins=2,
+                                        pick="insertion", ttls=(10,), ticks=(10,), delays=(0,)), 4)],
+            "drv": [("drv", "all", 120, 60, {})],
+        }
     else:
+        mc = []
         for nm, c in (("drop", drop), ("ret", ret), ("reject", q.spec_cfg(maxDepth=2)), ("open", q.spec_cfg())):
-            q.run_mc(ctx, nm + "-lease", c, family=("lease",), horizon=30, maxep=2, maxins=3, timeout=3000)
-            q.run_mc(ctx, nm + "-oper", c, family=("operator", "admission", "read"), horizon=20, maxep=1, maxins=3, timeout=3000)
-        gens = [("drop", drop, dict(family=fam_all, horizon=20, maxep=2, maxins=2, pick="insertion")),
-                ("ret", ret, dict(family=fam_all, horizon=20, maxep=1, maxins=2, pick="insertion", ttls=(10,)))]
-        ndrv, nops, sample = 3000, 80, 1
-    for nm, c, kw in gens:
-        scheds, edges, r = q.gen_schedules(ctx, nm, c, **kw)
-        sf = os.path.join(ctx.scratch, "gen-%s.ndjson" % nm)
-        q.write_schedules(sf, scheds, c, "gen-" + nm)
-        ctx.count("gen_edges", edges)
-        ctx.count("gen_schedules", len(scheds))
-        if scheds:
-            ctx.sample({"kind": "TLC-generated schedule", "cfg": q.sched_cfg(c), "ops": scheds[len(scheds) // 2]})
-        res, info = q.execute_and_validate(ctx, sf, "gen-" + nm, sqlite_sample=sample)
-        q.triage(ctx, res, sf)
-    res, info, sched = q.drive_and_validate(ctx, "drv", "all", ndrv, nops, ctx.seed, big_every=0 if ctx.quick else 40)
-    q.triage(ctx, res, sched)
-    with open(sched) as f:
-        import json
-        s = json.loads(f.readline())
-        s["ops"] = s["ops"][:12]
-        ctx.sample({"kind": "driver schedule (first 12 ops)", **s})
-    ctx.assumptions += ["memory and SQLite backends only (no PostgreSQL server in the sandbox)",
-                        "payloads / header maps are compared as digests",
-                        "retention prune that precedes an operation is modelled as a separate sanctioned step (a refused call may still prune)"]
-    vf.write_evidence(ctx, "model_checking", RULE, exhaustive=False)
+            mc.append((nm + "_lease", c, PROPS, dict(family=("lease", "leasebatch", "deqvar"), horizon=30, maxep=2, maxins=3, timeout=3000)))
+            mc.append((nm + "_oper", c, PROPS, dict(family=("operator", "filter", "admission", "read"), horizon=20, maxep=1, maxins=3, timeout=3000)))
+        plan = {
+            "mc": mc,
+            "gen": [("drop", drop, dict(family=FAM_ALL, horizon=20, maxep=2, maxins=2, pick="insertion"), 1),
+                    ("ret", ret, dict(family=FAM_ALL, horizon=20, maxep=1, maxins=2, pick="insertion", ttls=(10,)), 1),
+                    ("sim", ret, dict(family=FAM_ALL, horizon=200, maxep=3, maxins=6, pick="insertion", ids=3, simulate=3000, depth=40,
+                                      ticks=(1, 5, 10, 30), delays=(0, 7)), 1)],
+            "drv": [("drv", "all", 3000, 80, dict(big_every=40))],
+        }
+    q.run_plan(ctx, plan, RULE)
 
 
 def replay(ctx, path):
